@@ -33,7 +33,7 @@ CHECKS["C04"] = dict(
          "(every structure, modifier and parent kind, any nesting), lexer lemmas for unterminated string / compressed literals at end "
          "of input, and the source-level truncation_invariant_partial. Tie: lexer/parser correspondence; direct oracle "
          "parse(closed) == parse(truncated) for every number of dropped closers on grammar-generated programs (thorough: all programs "
-         "of <= 6 symbols over a 16-symbol alphabet).",
+         "of <= 5 symbols over a 16-symbol alphabet, plus 300 000 sampled programs of 6..8 symbols).",
     note=COMMON_NOTE + "Partial in one named way: the parser theorem is proved for token lists without @ (function definitions/references); "
          "@ programs are covered by the correspondence and the oracle only.",
     technique="Lean 4 proof (state-machine view of _get_branches + induction on the parser's recursion); differential correspondence; truncation oracle",
